@@ -221,4 +221,16 @@ PROPS["C10"] = {
     "assumptions": ["peer addresses are distinct IP literals", "fewer than 2^32 peers"],
 }
 
+PROPS["C17"] = {
+    "module": "CqlVerif.Props.C17",
+    "gens": ["panics"],
+    "streams": [{"name": "hostile", "quick": 500, "thorough": 20000}],
+    "shrink": False,
+    "claim": "Lean theorems: sites_justified / lexer_sites (every partial operation - index, slice, single-value type assertion, explicit panic, integer division - in proxy, proxycore, codecs, parser, with the guards on the way to it, regenerated from the typed AST of /repo on every run, has a justification; kernel-evaluated), identifier_no_panic, queryHosts_no_panic, queryHosts_hosts_nonempty, leastBusy_no_panic, fillChildren_no_panic, countArg_no_panic, planNext_no_panic, skipPositionalValues_suffix (the guarded operations cannot panic, for every input, on explicit-panic models), malformed_closed, routed_wellformed, isolation over Model/Hostile.clientStream (header + body decoders of every request opcode); tied to the code by the hostile stream: the real proxy in a child process facing generated client byte streams and hostile backends with a canary client, outcomes compared with the model",
+    "note": "partial: nil dereferences and panics inside the pinned libraries cannot be inventoried syntactically - they are reached only through the hostile stream's generators (finding: RESULT(Void) to a topology query); the justification table's invariant / notPeerDriven entries are reviewed claims, not theorems; memory exhaustion by declared lengths above 16 MiB is out of the property's scope. Trusted: Lean kernel, extractor (go/types), hand-written models, harness",
+    "rule": "hostile: each case starts the real proxy in a child process (2 backend nodes, heart-beats on) with a canary client connected; client family: hostile strings (lone quote, empty, unbalanced, NUL, non-UTF-8, long) in every string-typed field x 5 max versions x 5 client versions, generated multi-frame byte streams of every request opcode with mutated flags / lengths (0, short, +k, negative, 16 MiB) / truncated or corrupted bodies / opcodes / version bytes / direction, frames up to 16 MiB; backend family: 80 misbehaviours (wrong stream ids, duplicates, short / garbage ERROR and RESULT bodies, every flag, wrong opcodes / direction / version, negative length, truncated, unsolicited frames and events, UNPREPARED for unknown ids) and 19 malformed system.local / system.peers answers on control reconnect; verdict: process alive, canary (handled + forwarded query, before/after, plus a late joiner) answered correctly, attacker outcome sequence = model; distinct = distinct attack",
+    "trusted_base": [KERNEL, DRIVER, HARNESS, "Gen/PanicSites.lean regenerated by `vh extract panics` (go/packages + go/types over /repo)", "Spec/PanicTable.lean hand-written justifications", "Model/Hostile.lean hand-written"],
+    "assumptions": ["declared body lengths up to 16 MiB", "the attacker's connection has not negotiated compression (compressed bodies after negotiation are reported as unmodelled and checked for crash / canary only)"],
+}
+
 NOT_APPLICABLE = {}
